@@ -19,6 +19,7 @@ LEVEL_TEXT = (
     "pyscript's record equal to what it installed)"
     " (ten line kinds incl. versions whose lexicographic and numeric order disagree); the stored record is written through async_update_entry whenever it changes (never edited in place) and survives a yaml re-import; on reload the configuration is refreshed before the installer's gate is consulted"
     '; nameless lines and pins that are not versions are ignored wherever they occur, blanks around == do not make a different package; the options flow keeps the installed-packages record'
+    '; one result for every order (equal pins written differently); unsupported forms are ignored, epoch pins honoured, a byte order mark tolerated; the installed version is looked up under the distribution name at every site; a failed installer run never updates the record'
 )
 LEVEL_NOTE = "packaging.version.Version of the host is the ordering oracle; file system, Home Assistant's installer and importlib.metadata are summarised; package names and more than two files are not modelled"
 TECHNIQUE = "abstract interpretation of process_all_requirements / install_requirements on exhaustive finite models (decision tables, permutation invariance)"
